@@ -149,7 +149,65 @@ func cmdCaller(f hx.Flags, r *hx.Result) {
 	r.NonTrivial(int64(len(distinct)))
 	callerSweep(r, ctx)
 	callerBurst(r, ctx, f.Int("bursts", 1200))
+	callerExtras(r, ctx)
 	log.Destroy()
+	log.VerifReset()
+}
+
+// callerExtras: (a) a Refresh that is rejected because of an unparsable caller property never "disables" the lookup;
+// (b) a skip that points beyond the bottom of the stack denotes no frame: the location is empty in both modes,
+// whatever was looked up before.
+func callerExtras(r *hx.Result, ctx context.Context) {
+	site := sites.Table["Info/plain/1"]
+	for _, fast := range []bool{false, true} {
+		for _, badKey := range []string{"enableCaller", "fastCaller"} {
+			log.Destroy()
+			log.VerifReset()
+			sys.ResetAppenders()
+			tag := log.RegisterTag("caller_tag")
+			mk := func() sys.Cfg {
+				cfg := sys.Cfg{}
+				cfg.AddRec("ca")
+				cfg.AddLogger("lg", "Logger", "", "caller_tag", []sys.Ref{{Ref: "ca"}}, false, nil)
+				return cfg
+			}
+			bad := mk()
+			bad[badKey] = []string{"yes", "maybe", "1.5", "on"}[len(badKey)%4]
+			desc := map[string]any{"history": "Refresh(" + badKey + "=" + bad[badKey] + ") rejected, Destroy, Refresh(valid), log", "fast": fast}
+			var rerr error
+			if p := hx.Catch(func() { rerr = log.Refresh(bad.Map(nil)) }); p != nil {
+				r.Violate("refresh-panic", desc, "Refresh panicked: %v", p)
+				continue
+			}
+			log.Destroy()
+			if rerr == nil {
+				continue // the value was accepted: nothing to say here (another property's subject)
+			}
+			good := mk()
+			good["fastCaller"] = fmt.Sprint(fast)
+			if err := log.Refresh(good.Map(nil)); err != nil {
+				r.SetInfra("callerExtras refresh: %v", err)
+				return
+			}
+			wf, wl := site(ctx, tag, 1)
+			// beyond the bottom of the stack
+			log.Record(ctx, log.InfoLevel, tag, 200, log.Int("id", 2))
+			log.Destroy()
+			r.Eval(2)
+			for _, rc := range sys.Appender("ca").Recs() {
+				switch rc.ID {
+				case 1:
+					if rc.File != wf || rc.Line != wl {
+						r.Violate("wrong-location:after-rejected-refresh", desc, "record says %q:%d, the calling statement is %s:%d (the lookup was never validly disabled)", rc.File, rc.Line, wf, wl)
+					}
+				case 2:
+					if rc.File != "" || rc.Line != 0 {
+						r.Violate("wrong-location:skip-beyond-stack", desc, "Record with skip 200 (no such frame): record says %s:%d, want the empty location", rc.File, rc.Line)
+					}
+				}
+			}
+		}
+	}
 	log.VerifReset()
 }
 
